@@ -317,7 +317,34 @@ func c18(r *Report) {
 					}
 				}
 			}
-			for _, part := range []string{"read bandwidth", "write bandwidth", "latency", "defaults", "shape table emptied", "shapes installed"} {
+			// the table's time stamp is renewed inside the locked region that replaces it (connections
+			// accepted before the change compare their own time with it)
+			for _, in := range instrs(sh) {
+				st, isSt := in.(*ssa.Store)
+				if !isSt {
+					continue
+				}
+				fa, isFa := st.Addr.(*ssa.FieldAddr)
+				if !isFa || fieldObj(fa).Name() != "M" {
+					continue
+				}
+				isStamp := func(i ssa.Instruction) bool {
+					s2, ok := i.(*ssa.Store)
+					if !ok {
+						return false
+					}
+					f2, ok2 := s2.Addr.(*ssa.FieldAddr)
+					return ok2 && fieldObj(f2).Name() == "LastModifiedTime" && isCallValue(s2.Val, "time.Now")
+				}
+				isLock := func(i ssa.Instruction) bool { _, y := isCall(i, "(*sync.RWMutex).Lock"); return y }
+				isUnlock := func(i ssa.Instruction) bool { _, y := isCall(i, "(*sync.RWMutex).Unlock"); return y }
+				// some stamp lies between the Lock before the store and the Unlock after it on every path
+				before := g.PathTo([]ssa.Instruction{g.Entry()}, true, func(i ssa.Instruction) bool { return isStamp(i) }, func(i ssa.Instruction) bool { return i == ssa.Instruction(st) }) == nil &&
+					g.PathTo([]ssa.Instruction{g.Entry()}, true, isLock, isStamp) == nil
+				after := g.PathTo([]ssa.Instruction{st}, false, isStamp, isUnlock) == nil
+				have["time stamp"] = before || after
+			}
+			for _, part := range []string{"read bandwidth", "write bandwidth", "latency", "defaults", "shape table emptied", "shapes installed", "time stamp"} {
 				r.Decide("table", "(*M/trafficshape.Handler).ServeHTTP: an accepted configuration applies its "+part, have[part], "the update is made from the received value", "an accepted configuration does not apply its "+part+": the previous value stays in force (the old shapes keep matching, the old bandwidth or latency keeps shaping) although the client was told 200", sh.Pos())
 			}
 		}
@@ -731,6 +758,46 @@ func c18(r *Report) {
 			}
 		}
 		r.Decide("lockset", "(*M/trafficshape.Conn).Write: an action's count is decremented under the shape's write lock", okA, "lock held", "action counts are updated without the shape's lock", wr.Pos())
+		// every read of an action's count (through the Action interface) happens under the lock of its
+		// shape: in the function itself, or - for a helper without locks of its own - in every caller
+		shapeLocked := func(ls lockset) bool {
+			for k := range ls {
+				if strings.Contains(k, ".Shapes.M[") {
+					return true
+				}
+			}
+			return false
+		}
+		for _, f := range w.Funcs("trafficshape") {
+			var sites []ssa.Instruction
+			for _, in := range instrs(f) {
+				if c, isC := in.(*ssa.Call); isC && c.Call.IsInvoke() && (c.Call.Method.Name() == "getCount" || c.Call.Method.Name() == "decrementCount") {
+					sites = append(sites, in)
+				}
+			}
+			if len(sites) == 0 || f.Parent() != nil {
+				continue
+			}
+			st := lockStates(f, nil)
+			for _, in := range sites {
+				ok := shapeLocked(st[in])
+				how := "under the shape's lock " + st[in].String()
+				if !ok {
+					callers := w.staticCallers(f)
+					all := len(callers) > 0 && len(w.dynamicCallers(f)) == 0
+					for _, c := range callers {
+						if _, isGo := c.(*ssa.Go); isGo || !shapeLocked(lockStates(c.Parent(), nil)[c]) {
+							all = false
+						}
+					}
+					if all {
+						ok, how = true, fmt.Sprintf("every caller holds the shape's lock (%d call sites)", len(callers))
+					}
+				}
+				r.Sites++
+				r.Decide("lockset", fmt.Sprintf("%s: %s under the shape's lock", fnName(f), site(f, in.(ssa.CallInstruction))), ok, how, "an action's remaining count is read without the lock of its shape while another connection sharing the shape decrements it: a data race, and a halt or close action can fire more or fewer times than configured", in.Pos())
+			}
+		}
 	})
 
 	r.Guard("C18.R4", "a read lock is never taken again by a callee while it is held", func() {
@@ -1171,6 +1238,214 @@ func c18(r *Report) {
 		}
 	})
 
+	r.Guard("C18.R5", "outside its throttles a shape runs at its maximum bandwidth, or at the default when none is configured; an exhausted action stays exhausted", func() {
+		ps := w.Fn("trafficshape", "parseShapes")
+		if ps == nil || ps.Blocks == nil {
+			r.Undecided("M/trafficshape.parseShapes", "UNRESOLVED")
+			return
+		}
+		r.Touch(ps)
+		// the bandwidth handed to getActionsFromThrottles, evaluated for MaxBandwidth 0, 1, 5
+		def := int64(10) // DefaultBitrate is taken as 80 below
+		n := 0
+		for _, c := range plainCalls(ps, "M/trafficshape.getActionsFromThrottles") {
+			n++
+			ok, detail := true, ""
+			for _, mb := range []int64{0, 1, 5} {
+				ev := &miniEval{leaf: func(v ssa.Value) (int64, bool) {
+					if ld, isLd := v.(*ssa.UnOp); isLd && ld.Op == token.MUL {
+						if fa, isFa := ld.X.(*ssa.FieldAddr); isFa && fieldObj(fa).Name() == "MaxBandwidth" {
+							return mb, true
+						}
+						if g, isG := ld.X.(*ssa.Global); isG && g.Name() == "DefaultBitrate" {
+							return 80, true
+						}
+					}
+					return 0, false
+				}}
+				got, okE := ev.Int(c.Call.Args[1])
+				want := mb
+				if mb == 0 {
+					want = def
+				}
+				if !okE || got != want {
+					ok = false
+					detail = fmt.Sprintf("with max_bandwidth %d the bandwidth after a throttle is %d (evaluated: %v), want %d", mb, got, okE, want)
+				}
+			}
+			r.Sites++
+			r.Decide("table", "M/trafficshape.parseShapes: the bandwidth restored after a throttle", ok, "max_bandwidth {0,1,5}: the configured maximum, or DefaultBitrate/8 for 0", detail+": after a throttled range the bucket's capacity becomes 0 (every later write of the response blocks for ever) or another bandwidth than configured", c.Pos())
+		}
+		r.Decide("table", "M/trafficshape.parseShapes builds the throttle actions", n >= 1, fmt.Sprintf("%d call(s)", n), "getActionsFromThrottles is not called", ps.Pos())
+		// decrementCount: only a positive count is decremented (0 stays 0: a decrement would make it
+		// negative, which means 'every time')
+		for _, tn := range []string{"Halt", "CloseConnection"} {
+			dc := w.method(w.Named("trafficshape", tn), "decrementCount")
+			if dc == nil || dc.Blocks == nil {
+				r.Undecided("M/trafficshape."+tn+".decrementCount", "UNRESOLVED")
+				continue
+			}
+			r.Touch(dc)
+			isCount := func(v ssa.Value) bool {
+				if ld, isLd := v.(*ssa.UnOp); isLd && ld.Op == token.MUL {
+					if fa, isFa := ld.X.(*ssa.FieldAddr); isFa && fieldObj(fa).Name() == "Count" {
+						return true
+					}
+				}
+				return false
+			}
+			ok, nst := true, 0
+			for _, in := range instrs(dc) {
+				st, isSt := in.(*ssa.Store)
+				if !isSt {
+					continue
+				}
+				if fa, isFa := st.Addr.(*ssa.FieldAddr); !isFa || fieldObj(fa).Name() != "Count" {
+					continue
+				}
+				nst++
+				adm1, adm0 := true, true
+				for _, ce := range ctrlEdges(st.Block()) {
+					if rel, a := constCmpAdmits(ce, isCount, 1); rel && !a {
+						adm1 = false
+					}
+					if rel, a := constCmpAdmits(ce, isCount, 0); rel && !a {
+						adm0 = false
+					}
+				}
+				if !adm1 || adm0 {
+					ok = false
+				}
+			}
+			r.Decide("guard", "(*M/trafficshape."+tn+").decrementCount decrements a positive count only", ok && nst >= 1, "the store is guarded by a test that admits 1 and excludes 0", "the count is decremented at 0 as well (it turns negative, which means the action fires on every later response) or not at 1 (the action never runs out)", dc.Pos())
+		}
+	})
+
+	r.Guard("C18.R5", "the next action of a response that starts at an offset is the first action at or after that offset", func() {
+		fn := w.Fn("trafficshape", "Conn.GetNextActionFromByte")
+		if fn == nil || fn.Blocks == nil {
+			r.Undecided("M/trafficshape.Conn.GetNextActionFromByte", "UNRESOLVED")
+			return
+		}
+		r.Touch(fn)
+		searches := plainCalls(fn, "sort.Search")
+		if len(searches) != 1 {
+			r.Undecided("M/trafficshape.Conn.GetNextActionFromByte: binary search", fmt.Sprintf("UNRESOLVED: %d sort.Search calls", len(searches)))
+			return
+		}
+		// the predicate, evaluated for action offsets 4,5,6 against a start of 5: true for 5 and 6
+		var pred *ssa.Function
+		for v := range w.backSlice(searches[0].Call.Args[1], flowOpt{}) {
+			if mc, isMc := v.(*ssa.MakeClosure); isMc {
+				pred = mc.Fn.(*ssa.Function)
+			}
+			if f, isF := v.(*ssa.Function); isF {
+				pred = f
+			}
+		}
+		okPred := pred != nil
+		if pred != nil {
+			for _, ab := range []int64{4, 5, 6} {
+				ev := &miniEval{leaf: func(v ssa.Value) (int64, bool) {
+					if c, isC := v.(*ssa.Call); isC && c.Call.IsInvoke() && c.Call.Method.Name() == "getByte" {
+						return ab, true
+					}
+					if ld, isLd := v.(*ssa.UnOp); isLd && ld.Op == token.MUL {
+						if fv, isFv := ld.X.(*ssa.FreeVar); isFv && fv.Name() == fn.Params[1].Name() {
+							return 5, true
+						}
+					}
+					if fv, isFv := v.(*ssa.FreeVar); isFv && fv.Name() == fn.Params[1].Name() {
+						return 5, true
+					}
+					return 0, false
+				}}
+				for _, ret := range returns(pred) {
+					got, okE := ev.Bool(ret.Results[0])
+					if !okE || got != (ab >= 5) {
+						okPred = false
+					}
+				}
+			}
+		}
+		r.Decide("table", "M/trafficshape.Conn.GetNextActionFromByte: the search finds the first action at or after the offset", okPred, "predicate evaluated for offsets 4,5,6 against 5: true from 5 on", "the search predicate is not `offset of the action >= start`: an action placed exactly at the start of the range (or the one before it) is taken for the next one, and a close or halt configured there does not fire, or fires for the wrong byte", searches[0].Pos())
+		// and the index found is the index used
+		okInd := false
+		for _, c := range plainCalls(fn, "M/trafficshape.nextActionFromIndex") {
+			ev := &miniEval{leaf: func(v ssa.Value) (int64, bool) {
+				if v == ssa.Value(searches[0]) {
+					return 7, true
+				}
+				return 0, false
+			}}
+			if got, okE := ev.Int(c.Call.Args[1]); okE && got == 7 {
+				okInd = true
+			}
+		}
+		r.Decide("table", "M/trafficshape.Conn.GetNextActionFromByte: the look-up starts at the index the search found", okInd, "nextActionFromIndex(actions, ind) with ind the search result", "the index handed on is not the search result (it is adjusted on some path): of several actions at one offset only some run", fn.Pos())
+	})
+
+	r.Guard("C18.R5", "a throttle covers the bytes from its start up to, not including, its end", func() {
+		fn := w.Fn("trafficshape", "Conn.GetCurrentThrottle")
+		if fn == nil || fn.Blocks == nil {
+			r.Undecided("M/trafficshape.Conn.GetCurrentThrottle", "UNRESOLVED")
+			return
+		}
+		r.Touch(fn)
+		// every comparison between a throttle's ByteEnd and the offset is evaluated on ByteEnd 4,5,6
+		// against offset 5: it must hold exactly for 6 (the offset lies before the end)
+		n := 0
+		for _, f := range append([]*ssa.Function{fn}, fn.AnonFuncs...) {
+			for _, in := range instrs(f) {
+				b, isB := in.(*ssa.BinOp)
+				if !isB {
+					continue
+				}
+				switch b.Op {
+				case token.LSS, token.LEQ, token.GTR, token.GEQ:
+				default:
+					continue
+				}
+				sawEnd, sawStart := false, false
+				mk := func(end int64) *miniEval {
+					return &miniEval{leaf: func(v ssa.Value) (int64, bool) {
+						if ld, isLd := v.(*ssa.UnOp); isLd && ld.Op == token.MUL {
+							if fa, isFa := ld.X.(*ssa.FieldAddr); isFa && fieldObj(fa).Name() == "ByteEnd" {
+								sawEnd = true
+								return end, true
+							}
+						}
+						if isParamVal(v, fn.Params[1]) {
+							sawStart = true
+							return 5, true
+						}
+						return 0, false
+					}}
+				}
+				ok, evald := true, true
+				for _, end := range []int64{4, 5, 6} {
+					ev := mk(end)
+					x, okx := ev.Int(b.X)
+					y, oky := ev.Int(b.Y)
+					if !okx || !oky {
+						evald = false
+						break
+					}
+					if cmpHolds(b.Op, x, y) != (end > 5) {
+						ok = false
+					}
+				}
+				if !evald || !sawEnd || !sawStart {
+					continue
+				}
+				n++
+				r.Sites++
+				r.Decide("table", fmt.Sprintf("M/trafficshape.Conn.GetCurrentThrottle: end test #%d holds exactly while the offset is before the end", n), ok, "evaluated on ByteEnd 4,5,6 against offset 5", "the comparison with a throttle's end counts the end offset itself as inside (or the last byte as outside): a response that starts exactly where a throttle ends is throttled with its bandwidth", b.Pos())
+			}
+		}
+		r.Decide("table", "M/trafficshape.Conn.GetCurrentThrottle compares the offset with the throttle's end", n >= 1, fmt.Sprintf("%d end test(s)", n), "no comparison between ByteEnd and the offset: the look-up cannot tell whether the offset lies inside a throttle", fn.Pos())
+	})
+
 	r.Guard("C18.R8", "a bucket hands its callback exactly the capacity that is left, whenever some is left, and accounts for what the callback used", func() {
 		// evaluated on (fill, capacity) in {0,3,10,12} x {10}: the callback runs when fill < capacity
 		// (otherwise a write waits for ever), never when fill > capacity (a negative allowance slices
@@ -1223,7 +1498,11 @@ func c18(r *Report) {
 					}
 					return 0, false
 				}
-				out, okD := decide(cmp.Block(), func(v ssa.Value) (bool, bool) {
+				isClosedCall := func(v ssa.Value) bool { return isCallValue(v, "(*M/trafficshape.Bucket).closed") }
+				out, okD := decideWith(cmp.Block(), func(v ssa.Value) (bool, bool) {
+					if isClosedCall(v) {
+						return false, true // an open bucket
+					}
 					b, isB := v.(*ssa.BinOp)
 					if !isB {
 						return false, false
@@ -1235,7 +1514,7 @@ func c18(r *Report) {
 						return false, false
 					}
 					return cmpHolds(b.Op, x, y), true
-				})
+				}, func(i ssa.Instruction) bool { v, isV := i.(ssa.Value); return isV && isClosedCall(v) })
 				if !okD || out == nil {
 					okRun, detail = false, "the decision could not be evaluated"
 					continue
@@ -1259,6 +1538,29 @@ func c18(r *Report) {
 			r.Sites++
 			r.Decide("table", "(*M/trafficshape.Bucket)."+mn+": the callback runs exactly while capacity is left", okRun, "fill {0,3,10,12} of 10: runs when below, not when above", detail+": shaped bytes are never delivered, or the slice bound is negative", cmp.Pos())
 			r.Decide("table", "(*M/trafficshape.Bucket)."+mn+": the callback's allowance is capacity - fill", okArg, "evaluated on fill {0,3,10} of 10", detail+": more than the configured bandwidth passes per interval (the throttle adds less than its delay), or less", cb.Pos())
+			// a waiting call notices that the bucket was closed: every trip round the wait loop
+			// passes the closed test (Conn.Close closes the buckets to release blocked writers)
+			for _, l := range natLoops(fn) {
+				g := G(fn)
+				isClosed := func(i ssa.Instruction) bool { _, y := isCall(i, "(*M/trafficshape.Bucket).closed"); return y }
+				head := l.Head.Instrs[0]
+				round := false
+				for _, b := range fn.Blocks {
+					if !l.Blocks[b] {
+						continue
+					}
+					for _, sc := range b.Succs {
+						if sc == l.Head {
+							// a path from the head to this back edge that avoids the closed test
+							last := b.Instrs[len(b.Instrs)-1]
+							if p := g.PathTo([]ssa.Instruction{head}, true, isClosed, func(i ssa.Instruction) bool { return i == last }); p != nil && !isClosed(head) {
+								round = true
+							}
+						}
+					}
+				}
+				r.Decide("path", "(*M/trafficshape.Bucket)."+mn+": the wait loop tests for a closed bucket on every round", !round, "b.closed() lies on every path round the loop", "the loop that waits for capacity can go round without looking at the closed flag: a write blocked on a full bucket is not released when the connection (and its buckets) are closed, and its goroutine spins for ever", l.Head.Instrs[0].Pos())
+			}
 			// the callback's count is added to the fill
 			okAdd := false
 			for _, c := range calls(fn, "sync/atomic.AddInt64") {
@@ -1273,6 +1575,7 @@ func c18(r *Report) {
 	})
 
 	r.Guard("C18.R7", "buckets created for a connection or a shape are closed when it goes away", func() {
+		shapedCloseNeverWaitsRule(r)
 		// the configured latency is slept once, before a connection's first read and first
 		// write, on every path that leads to I/O
 		if ct := w.Named("trafficshape", "Conn"); ct != nil {
@@ -1527,3 +1830,66 @@ func rejectsFromBoth(f *ssa.Function, e condEdge, rej func(*ssa.Function, *ssa.B
 }
 
 var _ = types.Universe
+
+// shapedCloseNeverWaitsRule: Close of a shaped connection takes no lock that
+// Read, Write, ReadFrom or WriteTo of the same connection may hold while they
+// are inside an I/O call, a bucket wait or a sleep: Close is what unblocks
+// them (and, in a blind tunnel, what passes one side's end-of-stream to the
+// other while the opposite direction is still copying). Shared by C18.R7 and
+// C04.R5.
+func shapedCloseNeverWaitsRule(r *Report) {
+	w := r.W
+	cl := w.Fn("trafficshape", "Conn.Close")
+	if cl == nil || cl.Blocks == nil {
+		r.Undecided("M/trafficshape.Conn.Close", "UNRESOLVED")
+		return
+	}
+	r.Touch(cl)
+	taken := map[string]bool{}
+	for p := range acquires(cl) {
+		if len(cl.Params) > 0 && strings.HasPrefix(p, cl.Params[0].Name()+".") {
+			taken[strings.TrimPrefix(p, cl.Params[0].Name())] = true
+		}
+	}
+	n := 0
+	for _, mn := range []string{"Read", "Write", "ReadFrom", "WriteTo", "WriteDefaultBuckets"} {
+		m := w.Fn("trafficshape", "Conn."+mn)
+		if m == nil || m.Blocks == nil || len(m.Params) == 0 {
+			continue
+		}
+		r.Touch(m)
+		may := lockStatesMay(m)
+		recv := m.Params[0].Name()
+		bad := ""
+		for _, in := range instrs(m) {
+			c, isC := in.(ssa.CallInstruction)
+			if !isC {
+				continue
+			}
+			blocking := false
+			switch calleeName(c) {
+			case "(*M/trafficshape.Bucket).FillThrottle", "(*M/trafficshape.Bucket).FillThrottleLocked", "(*M/trafficshape.Bucket).Fill", "(*M/trafficshape.Conn).WriteDefaultBuckets", "time.Sleep", "io.Copy", "io.CopyN", "(*sync.Once).Do":
+				blocking = true
+			}
+			if c.Common().IsInvoke() {
+				switch c.Common().Method.Name() {
+				case "Read", "Write", "ReadFrom", "WriteTo":
+					blocking = true
+				}
+			}
+			if !blocking {
+				continue
+			}
+			n++
+			for k := range may[in] {
+				p := k[strings.Index(k, ":")+1:]
+				if strings.HasPrefix(p, recv+".") && taken[strings.TrimPrefix(p, recv)] {
+					bad = strings.TrimPrefix(p, recv)
+				}
+			}
+		}
+		r.Sites++
+		r.Decide("lockset", "(*M/trafficshape.Conn)."+mn+" blocks holding no lock that Close takes", bad == "", "no lock of Close held at an I/O call, a bucket wait or a sleep", "the method can sit in I/O (or wait for bandwidth) holding c"+bad+", which Close locks: Close - the call that is meant to unblock it - waits for it instead; a tunnel's end-of-stream is not passed on until the other direction finishes, and a blocked writer is never released", m.Pos())
+	}
+	r.Decide("lockset", "the shaped connection's I/O methods contain blocking calls", n >= 4, fmt.Sprintf("%d blocking call sites", n), "no blocking call found in the I/O methods: the rule has nothing to check", cl.Pos())
+}
